@@ -4,15 +4,16 @@ import PyaModel.Proofs.C10
 
 Property theorems only. Models: `Core/Cache.lean` (A: set-iteration sites as functions of the
 iteration order; B: memo tables and the protocol check with recursion guard and positive cache),
-following /repo after the five C10 repairs a944eb3, 24b231d, da6a3f3, 5fee81d, e01ac16.
+following /repo after the C10 repairs a944eb3, 24b231d, da6a3f3, 5fee81d, e01ac16, 99947e4, c06bd97,
+5ad1557.
 Spec: `Spec/CacheSpec.lean` (`OrderFree`, `answerFresh`, `sem`, exception classes `D10_*`).
 
 A site is *order free* when its output is the same for any two iteration orders of the same set
 (`o₁.Perm o₂`). The repaired sites are order free at full strength. For the sites whose repair was
 not applied (definition-node sets) the full statement is kept as a `def … : Prop`, refuted on a
 concrete input, and proved under the negation of the site's exception class. The history part
-does the same for "the answer after any history equals the answer of a fresh checker": one
-exception class is left (`cacheUnderFailedAssumption`). Theorems named `old_…` are regression
+is at full strength for verdicts in every world (answers are cached at top level only, 5ad1557) and
+keeps the exclusion of recursive worlds for the bounds map alone. Theorems named `old_…` are regression
 documentation about the code before the repairs, not about the code under check.
 -/
 namespace Pya.C10
@@ -292,25 +293,81 @@ theorem memo_key_must_determine :
     ≠ (memoStep (Q := Nat × Bool) (fun q => q.1) (fun _ => true) (fun q => some q.2) (fun _ => none)
       [] (0, false)).1 := by decide
 
-/-- Full statement for the protocol check: every answer — verdict and bounds map — equals the
-answer of a fresh checker (false: one exception class is left). -/
+/-- **The model follows the code under check.** The three flags `translate` reads off the live
+source of `TypeObject.can_assign` say: the cache key contains the mode and the generic arguments
+(e01ac16), and a positive answer is stored only while no recursion-guard assumption is in force
+(5ad1557). Reverting one of the repairs flips a flag and breaks this theorem. -/
+theorem cache_variant_is_repaired :
+    Gen.cacheModeKey = true ∧ Gen.cacheArgKey = true ∧ Gen.cacheTopOnly = true := by decide
+
+/-- **Every cached verdict is valid — full, any world (recursive or not), any mix of modes and
+generic arguments.** After any history of top-level queries from a fresh checker, every key in the
+cache is accepted by the recursion-guard algorithm *without any cache and without assumptions*
+(`guardVerdict … []`, what a fresh checker computes) — given `h.length * fuel` fuel. This is what
+caching only at top level buys: no entry rests on an assumption. (Proved by induction on the fuel
+with the cache constant during nested checks, `check_guard`, and induction over the history.) -/
+theorem cached_verdicts_valid (W : World) (fuel : Nat) (h : List Query) (e : Bool) (a : Nat) (p : Pid)
+    (v : Vid) (bm : BMap) (hmem : ((e, a, p, v), bm) ∈ (runHist W fuel {} h).cache) :
+    guardVerdict W e (h.length * fuel) [] p a v = true := by
+  have := (runHist_guard W fuel (by decide) h {} 0 (by intro e a p v bm hm; cases hm) rfl).1 e a p v bm hmem
+  simpa using this
+
+/-- **The verdict after any history — full, any world.** It is never stricter than a fresh checker's
+verdict, and if it accepts, so does a fresh checker given more fuel. Python has no fuel (it recurses
+until the guard fires), so the two bounds coincide there: see the corollary. -/
+theorem proto_verdict_history_bounds (W : World) (fuel : Nat) (h : List Query) (q : Query) :
+    (guardVerdict W q.ex fuel [] q.p q.a q.v = true → (answerAfter W fuel h q).isSome = true) ∧
+    ((answerAfter W fuel h q).isSome = true →
+      guardVerdict W q.ex (fuel + h.length * fuel) [] q.p q.a q.v = true) := by
+  obtain ⟨hc, hs⟩ := runHist_guard W fuel (by decide) h {} 0 (by intro e a p v bm hm; cases hm) rfl
+  obtain ⟨l, u, _⟩ := check_guard W q.ex (0 + h.length * fuel) (by decide) fuel (runHist W fuel {} h) q.p q.a q.v hc
+  rw [hs] at l u
+  unfold answerAfter
+  exact ⟨l, fun hh => by simpa using u hh⟩
+
+/-- The fuel suffices for `q`: more fuel does not make the cache-free algorithm accept it (Python's
+situation; in a world with `k` (protocol, class) pairs `k + 1` is enough, the guard fires before). -/
+def FuelSuffices (W : World) (fuel : Nat) (q : Query) : Prop :=
+  ∀ N, guardVerdict W q.ex N [] q.p q.a q.v = true → guardVerdict W q.ex fuel [] q.p q.a q.v = true
+
+/-- **History independence of the verdict — any world, recursive protocols included.** No
+`D10_cyclic` hypothesis: the exclusion existed because answers were cached under assumptions. -/
+theorem proto_verdict_history_independent (W : World) (fuel : Nat) (h : List Query) (q : Query)
+    (hf : FuelSuffices W fuel q) :
+    (answerAfter W fuel h q).isSome = (answerFresh W fuel q).isSome := by
+  have hb := proto_verdict_history_bounds W fuel h q
+  have hb0 := proto_verdict_history_bounds W fuel [] q
+  cases h1 : (answerAfter W fuel h q).isSome <;> cases h2 : (answerFresh W fuel q).isSome <;> try rfl
+  · have := hb0.2 h2
+    have := hb.1 (hf _ this)
+    rw [h1] at this; cases this
+  · have := hb.2 h1
+    have := hb0.1 (hf _ this)
+    unfold answerFresh at h2
+    rw [h2] at this; cases this
+
+/-- Full statement for the protocol check at the level of answers — verdict *and bounds map* (false:
+see the witness). -/
 def cached_answer_valid : Prop :=
   ∀ (W : World) (fuel : Nat) (h : List Query) (q : Query), answerAfter W fuel h q = answerFresh W fuel q
 
-/-- World of the witness: P1 ← A needs (P2 ← B) and then something false; P2 ← B needs P1 ← A. -/
-def wGuard : World := ⟨[((1, 0, 1), [[.sub 2 0 2, .const false]]), ((2, 0, 2), [[.sub 1 0 1]])], []⟩
+/-- Two mutually recursive generic protocols whose members also bound a type variable. -/
+def wCyc : World :=
+  ⟨[((0, 0, 0), [[.sub 1 0 1, .bound 7 1]]), ((1, 0, 1), [[.sub 0 0 0, .bound 7 2]])], []⟩
 
-/-- **cacheUnderFailedAssumption**: while checking P1 ← A, the nested P2 ← B succeeds under the
-assumption "P1 ← A" and is cached; P1 ← A then fails. A fresh checker rejects P2 ← B, the warmed
-one accepts it. (The cached pair is not in the greatest fixed point: `gfpCompat` is empty.) -/
-theorem cache_under_failed_assumption_witness :
-    answerAfter wGuard 5 [⟨false, 1, 0, 1⟩] ⟨false, 2, 0, 2⟩ = some [] ∧
-    answerFresh wGuard 5 ⟨false, 2, 0, 2⟩ = none ∧ gfpCompat wGuard false = [] := by decide
+/-- **Why the bounds-map theorem keeps `¬ D10_cyclic`.** In a recursive world the recursion guard
+answers `{}` for the pair under way while a cache hit answers with the stored map: both verdicts are
+"compatible", but the bounds map of the outer pair lists the bounds differently (here `[2, 1, 2]`
+after the history, `[1, 2]` fresh). Not a matter of caching under assumptions: any positive cache
+next to a guard does this. -/
+theorem cyclic_bounds_map_depends_on_history_witness :
+    answerAfter wCyc 5 [⟨false, 0, 0, 0⟩] ⟨false, 1, 0, 1⟩ = some [(7, [2, 1, 2])] ∧
+    answerFresh wCyc 5 ⟨false, 1, 0, 1⟩ = some [(7, [1, 2])] := by decide
 
 theorem cached_answer_valid_false : ¬ cached_answer_valid := by
   intro h
-  have := h wGuard 5 [⟨false, 1, 0, 1⟩] ⟨false, 2, 0, 2⟩
-  rw [cache_under_failed_assumption_witness.1, cache_under_failed_assumption_witness.2.1] at this
+  have := h wCyc 5 [⟨false, 0, 0, 0⟩] ⟨false, 1, 0, 1⟩
+  rw [cyclic_bounds_map_depends_on_history_witness.1, cyclic_bounds_map_depends_on_history_witness.2] at this
   cases this
 
 /-- **Cache entries are immutable after insertion.** Whatever the world (recursive or not), the
@@ -323,9 +380,10 @@ theorem cache_entries_immutable (W : World) (fuel : Nat) (st : St) :
   ⟨fun q e he => (check_extends W q.ex fuel st q.p q.a q.v).mem e he,
    fun h e he => (runHist_extends W fuel h st).mem e he⟩
 
-/-- **History independence of the protocol check, partial — verdict and bounds map.** Outside the
-one class left — the world's nested checks are well-founded w.r.t. `rk` (`¬ D10_cyclic`: the
-recursion guard never fires) — and with fuel above the rank of every query, for *every* history, in
+/-- **History independence of the protocol check, partial — verdict and bounds map.** For the *bounds
+map* the exclusion of recursive worlds stays (`cyclic_bounds_map_depends_on_history_witness`): if the
+world's nested checks are well-founded w.r.t. `rk` (`¬ D10_cyclic`: the recursion guard never
+fires) and the fuel is above the rank of every query, for *every* history, in
 any mix of the two modes and of the protocols' generic-argument variants, the answer is the
 structural one `semB`: the same verdict and the same bounds map, list for list, as a fresh checker
 returns. Proved by induction on the fuel with nested inductions over members and slots
@@ -454,10 +512,23 @@ theorem old_proto_cache_key_witness :
     answerAfter2 wArgs false false false 3 [⟨false, 0, 0, 0⟩] ⟨false, 0, 1, 0⟩ = some [] ∧
     answerAfter2 wArgs false false false 3 [] ⟨false, 0, 1, 0⟩ = none := by decide
 
-/-- The repair that was not applied (`check2 true true true`: nothing is cached while an assumption
-is in force) removes the remaining witness. -/
-theorem top_only_caching_repairs_witness :
-    answerAfter2 wGuard true true true 5 [⟨false, 1, 0, 1⟩] ⟨false, 2, 0, 2⟩ =
-    answerAfter2 wGuard true true true 5 [] ⟨false, 2, 0, 2⟩ := by decide
+/-! ### Regression: answers cached under a recursion-guard assumption (repaired by 5ad1557) -/
+
+/-- P1 ← A needs (P2 ← B) and then something false; P2 ← B needs P1 ← A. -/
+def wGuard : World := ⟨[((1, 0, 1), [[.sub 2 0 2, .const false]]), ((2, 0, 2), [[.sub 1 0 1]])], []⟩
+
+/-- The nested P2 ← B, accepted under the assumption "P1 ← A", is not stored: after P1 ← A has been
+checked (and rejected), P2 ← B is answered as by a fresh checker (former class
+cacheUnderFailedAssumption; also an instance of `proto_verdict_history_independent`). -/
+theorem assumption_results_not_cached :
+    answerAfter wGuard 5 [⟨false, 1, 0, 1⟩] ⟨false, 2, 0, 2⟩ = answerFresh wGuard 5 ⟨false, 2, 0, 2⟩ ∧
+    (runHist wGuard 5 {} [⟨false, 1, 0, 1⟩]).cache = [] := by decide
+
+/-- Before 5ad1557 (`check2 true true false`): P2 ← B was cached while P1 ← A was assumed; P1 ← A then
+failed; a fresh checker rejects P2 ← B, the warmed one accepted it. (The cached pair is not in the
+greatest fixed point: `gfpCompat` is empty.) -/
+theorem old_cache_under_failed_assumption_witness :
+    answerAfter2 wGuard true true false 5 [⟨false, 1, 0, 1⟩] ⟨false, 2, 0, 2⟩ = some [] ∧
+    answerAfter2 wGuard true true false 5 [] ⟨false, 2, 0, 2⟩ = none ∧ gfpCompat wGuard false = [] := by decide
 
 end Pya.C10
